@@ -370,9 +370,17 @@ void fcppt::container::tree::object<T>::swap(object &_other)
 
   swap(this->value_, _other.value_);
 
-  std::swap(this->parent_, _other.parent_);
-
   this->children_.swap(_other.children_);
+
+  for (auto &child : this->children_)
+  {
+    child.parent_ = this;
+  }
+
+  for (auto &child : _other.children_)
+  {
+    child.parent_ = &_other;
+  }
 }
 
 template <typename T>
